@@ -2,6 +2,18 @@
 SOURCE_COMMITS = []
 NOT_APPLICABLE = {}
 CHECKS = {
+ "C09": {
+  "text": "ArchivePublish.tla (2-3 uploaders x package/metadata names x 2 archives + cache-mirroring downloader + reader, I/O error "
+          "or kill at any file-system operation) is model-checked exhaustively for Atomic, NeverOverwrite, FailedLeavesNothing "
+          "and NoTempUnderName; TLC behaviours are replayed op by op into real LocalArchive objects under the deterministic "
+          "scheduler and fs interposer with a reader oracle after every real fs op (byte identity with a solo upload, full "
+          "gzip+tar read, never changes once present); every op of every solo scenario is additionally used as kill/EIO/ENOSPC "
+          "point; thorough adds real process races. Bounded model checking plus conformance, not a proof.",
+  "design_ref": "DESIGN.md section 4, C09",
+  "note": "vf.sched/vf.fsint interposition on bob.archive's os/open/NamedTemporaryFile names; POSIX atomic link/rename on the archive fs; kill modelled immediately before an fs op; payload identity compared after the gzip header; python gzip/tarfile as independent validity oracle",
+  "technique": "TLA+/TLC exhaustive + vacuity configs; planned-fault -simulate generation; deterministic-scheduler replay with a reader oracle after every real fs op; fault/crash enumeration; multi-process stress (thorough)",
+ },
+
  "C04": {
   "text": "PkgMemo.tla (memo tables with touched-key stacks and the by-result-id table, YAML cache, package pickle and tree "
           "database, under file edits, -D overrides and repeated invocations) is model-checked exhaustively within small bounds for "
